@@ -378,6 +378,66 @@ example : chainOk [.batch 0 2147483645 5, .batch 0 2 3, .batch 0 2 2] = false :=
 example : chainOk [.batch 0 2147483645 5, .batch 1 0 3] = false := by decide
 example : chainOk [.batch 0 2147483645 5, .reset, .batch 1 0 3, .batch 1 3 1] = true := by decide
 
+/-- The arrival monitor never refuses what the write-order monitor accepts, and then nothing is left aside: on such
+histories the two coincide. -/
+theorem lmon_step_generalises (m m' : Mon) (ev : Ev) (h : m.step ev = some m') :
+    (LMon.ofMon m).step ev = some (LMon.ofMon m') := by
+  cases ev with
+  | reset => simp [Mon.step] at h; subst h; simp [LMon.step, LMon.ofMon]
+  | batch e f n =>
+    simp only [Mon.step] at h
+    simp only [LMon.step, LMon.ofMon]
+    split at h
+    · simp at h
+    · rename_i hr
+      simp only [hr, if_false, Bool.false_eq_true]
+      split at h
+      · simp only [Option.some.injEq] at h; subst h; simp_all
+      · rename_i hst
+        simp only [hst, if_false, Bool.false_eq_true]
+        split at h
+        · rename_i he
+          simp only [he, if_true]
+          split at h
+          · rename_i hf
+            simp only [Option.some.injEq] at h; subst h
+            simp [hf, LMon.absorb]
+          · rename_i hf
+            split at h
+            · rename_i hc
+              simp only [Option.some.injEq] at h; subst h
+              have hc' : (f, n) ∈ m.chain := by simpa using hc
+              simp [hf, hc']
+            · simp at h
+        · rename_i he
+          simp only [he, if_false, Bool.false_eq_true]
+          split at h
+          · rename_i ha
+            simp only [Option.some.injEq] at h; subst h
+            simp_all
+          · simp at h
+
+theorem lmon_generalises (es : List Ev) (m m' : Mon) (h : m.run es = some m') :
+    (LMon.ofMon m).run es = some (LMon.ofMon m') ∧ (LMon.ofMon m').done = true := by
+  induction es generalizing m with
+  | nil => simp [Mon.run] at h; subst h; simp [LMon.run, LMon.done, LMon.ofMon]
+  | cons e es ih =>
+    simp only [Mon.run] at h
+    cases hs : m.step e with
+    | none => simp [hs] at h
+    | some m1 =>
+      simp only [hs] at h
+      simp only [LMon.run, lmon_step_generalises m m1 e hs]
+      exact ih m1 h
+
+/-- the recorded arrival order of sweep seed 23 (`scen 2147483613 …`): 45+5 arrives, 68+5 arrives before 50+18 ever
+did, then the re-sends; the numbering is one chain and nothing is left aside. Two batches with one first sequence, or
+a batch that the chain never reaches, are still refused. -/
+example : ((LMon.run {} [.batch 0 31 14, .batch 0 45 5, .batch 0 68 5, .batch 0 45 5, .batch 0 50 18, .batch 0 68 5, .batch 0 73 15]).map
+    (fun m => (m.done, m.nextSeq))) = some (true, 88) := by decide
+example : (LMon.run {} [.batch 0 31 14, .batch 0 45 5, .batch 0 68 5, .batch 0 68 4]).isSome = false := by decide
+example : ((LMon.run {} [.batch 0 31 14, .batch 0 45 5, .batch 0 68 5, .batch 0 50 17]).map (·.done)) = some false := by decide
+
 end Client
 
 end Props.C29
